@@ -22,7 +22,7 @@ SPEC = {
                    "PyMatterSim.reader.simulation_log:read_lammpslog"],
     "floors": {"roundtrip_header": 1500, "roundtrip_atoms": 500, "additions": 300, "vector_columns": 500, "data_header": 200,
                "centertype": 1500, "gsd": 1000, "gsd_dcd": 1000, "log_sections": 500, "log_values": 300,
-               "log_real_columns_starting_with_a_whole_number": 100},
+               "log_real_columns_starting_with_a_whole_number": 100, "consecutive_frames_with_equal_timesteps": 50},
     "insitu": (),
     "rule": ("writer->reader round trips: timestep 0..1e9, N 1..40, bounds of any origin, {2D,3D}, additional column names, 1..4 "
              "frames, atom lines in any id order; read_additions for every zero-based column, read_lammps_vector for random 1-based "
@@ -68,6 +68,11 @@ def roundtrip_case(ctx, rng, wd, i):
     names = [str(rng.choice(["order", "Q6", "vx", "vy", "vz", "c_pe", "f_ave[1]", "radius"])) + (str(k) if k else "") for k in range(nextra)]
     addson = " ".join(names) if names else (None if rng.random() < 0.5 else "")
     ts = np.cumsum(rng.integers(1, 10 ** int(rng.integers(1, 9)), size=nframes)).astype(int)
+    if nframes > 1 and rng.random() < 0.25:
+        # restarted runs re-dump the restart step, reset_timestep: consecutive frames with the SAME timestep are frames like any other
+        j_ = int(rng.integers(1, nframes))
+        ts[j_] = ts[j_ - 1]
+        ctx.count("consecutive_frames_with_equal_timesteps")
     if rng.random() < 0.3:
         ts[0] = 0
     text, truth = [], []
@@ -275,6 +280,9 @@ def centertype_case(ctx, rng, wd, i):
             fr["types"][: K] = np.arange(1, K + 1)          # every species present
         frames.append(fr)
     ts = np.cumsum(rng.integers(1, 5000, size=nframes)) - (1 if rng.random() < 0.3 else 0)
+    if nframes > 1 and rng.random() < 0.25:
+        j_ = int(rng.integers(1, nframes))
+        ts[j_] = ts[j_ - 1]             # the restart step dumped twice
     order = str(rng.choice(["sorted", "reversed", "random", "mixed"]))
     text, _ = gd.emit(rng, frames, ts, order, int(rng.integers(0, 3)), False, "pp pp pp", str(rng.choice(["single", "double", "tab"])))
     path = os.path.join(wd, "mol.dump")
@@ -386,7 +394,7 @@ def make_hoomd(rng, d, T, N):
             configuration=_types.SimpleNamespace(dimensions=d, box=box, step=step),
             particles=_types.SimpleNamespace(N=N, typeid=typeid, position=pos, types=["A", "B", "C", "D"]))
         frames.append(fr)
-        step += int(rng.integers(1, 10 ** 5))
+        step += int(rng.integers(1, 10 ** 5)) if rng.random() < 0.8 else 0        # (frames that carry the same step are frames like any other)
     return frames
 
 
